@@ -816,4 +816,13 @@ def exTag : Tag :=
     (.seq (.lit (ofString "-")) (.seq (.phd (.lit (ofString "zz")) (.ph (.lit (ofString "n"))))
       (.seq (.phd (.lit (ofString "e")) (.lit (ofString "dflt"))) (.seq (.ph (.lit (ofString "el"))) (.ph (.lit (ofString "m.k"))))))))
 
+/-- configured values that carry placeholders themselves: `bin` and `lib` both go through `base` (a diamond), `twice`
+    mentions it twice, `left`/`right` are circular with two back references -/
+def diaCfg : Cfg :=
+  [ (ofString "root", .str (ofString "/opt")), (ofString "base", .str (ofString "${root}/app")),
+    (ofString "bin", .str (ofString "${base}/bin")), (ofString "lib", .str (ofString "${base}/lib")),
+    (ofString "twice", .str (ofString "${base}:${base}")), (ofString "sel", .str (ofString "${which}")),
+    (ofString "which", .str (ofString "x")), (ofString "kx", .str (ofString "${base}!")),
+    (ofString "left", .str (ofString "${right} ${right}")), (ofString "right", .str (ofString "${left}")) ]
+
 end Ioc.Placeholder
